@@ -25,7 +25,8 @@ CONFIGS_QUICK = [
     ("Player", ["CameraMode", "DevComputerMovementMode", "TeamColor"], 2),
 ]
 CONFIGS_THOROUGH = [
-    ("Part", ["Color", "Color3uint8", "BrickColor", "brickColor", "Size", "size"], 2),
+    # (six spellings x 2 instances = 4096 populations took TLC 39 minutes and the replay longer still: five here)
+    ("Part", ["Color", "Color3uint8", "BrickColor", "brickColor", "size"], 2),
     ("Part", ["Color3uint8", "brickColor", "size"], 3),
     ("ScreenGui", ["IgnoreGuiInset", "ScreenInsets"], 3),
     ("Part", ["Color", "Color3uint8", "BrickColor"], 3),
